@@ -334,10 +334,10 @@ let hash_rows (m : int list list) : int =
 let history_matrix (type v) (e : v elt) (to_int : v -> int) (dflt : v)
     (run : nat -> v bop list -> v buffer res)
     (get_in : string -> string) (get : string -> string option) (cols : int) (m_in : v list list) (mi : int)
-    : v list list =
+    : v list list * v buffer option =
   let h = try Some (get_in "h") with Not_found -> None in
   let rows_in = List.length m_in in
-  if h = None && (rows_in > 16 || get "h.R" = None) then m_in else begin
+  if h = None && (rows_in > 16 || get "h.R" = None) then (m_in, None) else begin
     let w = try Some (int_of_string (get_in "w")) with Not_found -> None in
     let scored = ref false in
     let fill_rows rows v = let row = List.init cols (fun _ -> v) in List.init rows (fun _ -> row) in
@@ -383,8 +383,8 @@ let history_matrix (type v) (e : v elt) (to_int : v -> int) (dflt : v)
         (match get "h.ih" with
          | Some x when int_of_string x = hz (b_iter b) -> ()
          | _ -> diff "h.ih: the rows yielded by matrix().iter() differ from the buffer model");
-        m
-    | _ -> diff "buffer model: the history panics"; m_in
+        (m, Some b)
+    | _ -> diff "buffer model: the history panics"; (m_in, None)
   end
 
 let arm_of = function "G" -> AGeneric | "S" -> ASse2 | "A" -> AAvx2 | _ -> failwith "arm"
@@ -429,18 +429,24 @@ let run_f32 get_in get cols =
   let mi = int_of_string (get_in "mi") in
   let t = f32_of_string (get_in "t") in
   let m = List.map (List.map e.of_int) (parse_matrix_fields get_in cols) in
-  let m = history_matrix e f32_bits (f32_of_int 0) f32_buf_run get_in get cols m mi in
+  (* on a case with a history the entry points of the model are those on the BUFFER (buf_*: the
+     default scans walk the whole backing vector, the kernels rows 0..rows()); they equal the
+     functions on the logical rows (C07_history_independent, C07_history_dispatch_f32) *)
+  let (m, buf) = history_matrix e f32_bits (f32_of_int 0) f32_buf_run get_in get cols m mi in
   let rows = List.length m in
+  let buf = if rows <= 300 then buf else None in
   let domain = List.for_all (List.for_all e.in_domain) m && e.in_domain t in
   let min_ = n_of_int mi in
   let cn = nat_of_int cols in
   let gmax = ref Missing in
-  let th_model = lazy (List.map coord_of_nat (f32_threshold m t)) in
-  let am_gen_raw = lazy (f32_argmax_generic m) in
+  let th_model = lazy (List.map coord_of_nat (match buf with Some b -> f32_buf_threshold_generic b t | None -> f32_threshold m t)) in
+  let am_gen_raw = lazy (match buf with Some b -> f32_buf_argmax_generic b | None -> f32_argmax_generic m) in
   let am_gen = lazy (of_res conv_coord_opt (Lazy.force am_gen_raw)) in
   (* Maximum::max (default impl) = max_of_argmax of the same pipeline's arg-maximum (definition of
      max_generic / pipeline_sse2_max, C07_source_pipeline_table): the arg-maximum is evaluated once *)
-  let max_gen = lazy (of_res (fun x -> x) (if rows <= 300 then f32_max_generic m else f32_max_of_argmax (Lazy.force am_gen_raw) m)) in
+  let max_gen = lazy (of_res (fun x -> x) (match buf with
+    | Some b -> f32_buf_max_generic b
+    | None -> if rows <= 300 then f32_max_generic m else f32_max_of_argmax (Lazy.force am_gen_raw) m)) in
   (* Pipeline::generic() *)
   check_entry e m t domain get "g" max_gen am_gen th_model gmax;
   gmax := obs_opt e.parse (get "g.max");
@@ -455,19 +461,27 @@ let run_f32 get_in get cols =
     check_entry e m t domain get "a" mx_avx2 (lazy (of_res conv_coord_opt (Lazy.force am_avx2))) th_model gmax;
     (* the threshold of every arm is the same function (C07_arms_agree, by reflexivity): the
        dispatcher's and the StripedScores-level lists are evaluated once *)
-    let th_disp = lazy (List.map coord_of_nat (f32_dispatch_threshold AGeneric m t)) in
+    let th_disp = lazy (List.map coord_of_nat (match buf with
+      | Some b -> f32_buf_dispatch_threshold AGeneric b t
+      | None -> f32_dispatch_threshold AGeneric m t)) in
     let th_ss = lazy (List.map int_of_n (f32_ss_threshold m t)) in
     List.iter (fun an ->
       let a = arm_of an in
       (* small matrices: the extracted dispatcher itself; tall ones: the arms run the kernels of the
          pipelines above (C07_source_dispatch_table, by reflexivity: AGeneric = generic, ASse2 = SSE2
          arg-max / generic max, AAvx2 = AVX2), whose evaluations are shared *)
-      let am = if rows <= 300 then lazy (f32_dispatch_argmax a min_ m) else match a with
-        | AGeneric -> am_gen_raw
-        | ASse2 -> am_sse2
-        | AAvx2 -> am_avx2 in
-      let mx = if rows <= 300 then lazy (of_res (fun x -> x) (f32_dispatch_max a m))
-               else match a with AAvx2 -> mx_avx2 | _ -> max_gen in
+      let am = match buf with
+        | Some b -> lazy (f32_buf_dispatch_argmax a min_ b)
+        | None ->
+          if rows <= 300 then lazy (f32_dispatch_argmax a min_ m) else match a with
+          | AGeneric -> am_gen_raw
+          | ASse2 -> am_sse2
+          | AAvx2 -> am_avx2 in
+      let mx = match buf with
+        | Some b -> lazy (of_res (fun x -> x) (f32_buf_dispatch_max a b))
+        | None ->
+          if rows <= 300 then lazy (of_res (fun x -> x) (f32_dispatch_max a m))
+          else match a with AAvx2 -> mx_avx2 | _ -> max_gen in
       check_entry e m t domain get ("d" ^ an) mx (lazy (of_res conv_coord_opt (Lazy.force am))) th_disp gmax;
       check_striped e m t domain get ("s" ^ an) rows cols mx
         (lazy (of_res conv_n_opt (f32_ss_argmax (Lazy.force am) m))) th_ss
@@ -506,15 +520,18 @@ let run_u8 get_in get cols =
   let mi = int_of_string (get_in "mi") in
   let t = z_of_int (int_of_string (get_in "t")) in
   let m = List.map (List.map e.of_int) (parse_matrix_fields get_in cols) in
-  let m = history_matrix e int_of_z (z_of_u8 0) u8_buf_run get_in get cols m mi in
+  let (m, buf) = history_matrix e int_of_z (z_of_u8 0) u8_buf_run get_in get cols m mi in
   let rows = List.length m in
+  let buf = if rows <= 300 then buf else None in
   let domain = true in
   let cn = nat_of_int cols in
   let gmax = ref Missing in
-  let th_model = lazy (List.map coord_of_nat (u8_threshold m t)) in
-  let am_gen_raw = lazy (u8_argmax_generic m) in
+  let th_model = lazy (List.map coord_of_nat (match buf with Some b -> u8_buf_threshold_generic b t | None -> u8_threshold m t)) in
+  let am_gen_raw = lazy (match buf with Some b -> u8_buf_argmax_generic b | None -> u8_argmax_generic m) in
   let am_gen = lazy (of_res conv_coord_opt (Lazy.force am_gen_raw)) in
-  let max_gen = lazy (of_res (fun x -> x) (if rows <= 300 then u8_max_generic m else u8_max_of_argmax (Lazy.force am_gen_raw) m)) in
+  let max_gen = lazy (of_res (fun x -> x) (match buf with
+    | Some b -> u8_buf_max_generic b
+    | None -> if rows <= 300 then u8_max_generic m else u8_max_of_argmax (Lazy.force am_gen_raw) m)) in
   check_entry e m t domain get "g" max_gen am_gen th_model gmax;
   gmax := obs_opt e.parse (get "g.max");
   (* Pipeline::sse2() has no u8 kernels: default impls *)
@@ -528,9 +545,13 @@ let run_u8 get_in get cols =
   if cols = 32 then List.iter (fun an ->
     let a = arm_of an in
     (* the Generic and Sse2 arms run the generic scans (C07_source_dispatch_table) *)
-    let am = if rows <= 300 then lazy (u8_dispatch_argmax a m) else if a = AAvx2 then am_avx2 else am_gen_raw in
-    let mx = if rows <= 300 then lazy (of_res (fun x -> x) (u8_dispatch_max a m))
-             else if a = AAvx2 then mx_avx2 else max_gen in
+    let am = match buf with
+      | Some b -> lazy (u8_buf_dispatch_argmax a b)
+      | None -> if rows <= 300 then lazy (u8_dispatch_argmax a m) else if a = AAvx2 then am_avx2 else am_gen_raw in
+    let mx = match buf with
+      | Some b -> lazy (of_res (fun x -> x) (u8_buf_dispatch_max a b))
+      | None -> if rows <= 300 then lazy (of_res (fun x -> x) (u8_dispatch_max a m))
+                else if a = AAvx2 then mx_avx2 else max_gen in
     check_entry e m t domain get ("d" ^ an) mx (lazy (of_res conv_coord_opt (Lazy.force am))) th_model gmax;
     check_striped e m t domain get ("s" ^ an) rows cols mx
       (lazy (of_res conv_n_opt (u8_ss_argmax (Lazy.force am) m))) th_ss
